@@ -49,10 +49,10 @@ theorem coordTot_eq : ∀ (R : List (Nat × Nat)), (R.map (fun r => coordSize r.
     omega
 
 /-- **the rewritten simple glyph decodes to the same outline** (see Props/C17Outline.lean) -/
-theorem simple_decodes_equal (flags : Nat) (gmap : Nat → Option Nat) (d out : Bytes)
+theorem simple_decodes_equal (flags : Nat) (gmap : Nat → Option Nat) (d out pad : Bytes)
     (hb : ∀ b ∈ d, b < 256) (hs : u16At d 0 < 32768)
     (h : subsetGlyphBytes flags gmap d = .bytes out) (hne : out ≠ []) :
-    ∃ v v', Glyf.readSimple d = some v ∧ Glyf.readSimple out = some v' ∧
+    ∃ v v', Glyf.readSimple d = some v ∧ Glyf.readSimple (out ++ pad) = some v' ∧
       v'.nContours = v.nContours ∧ v'.xMin = v.xMin ∧ v'.yMin = v.yMin ∧ v'.xMax = v.xMax ∧ v'.yMax = v.yMax ∧
       v'.endPts = v.endPts ∧
       v'.instructions = (if hasFlag flags F_NO_HINTING then [] else v.instructions) ∧
@@ -111,8 +111,8 @@ theorem simple_decodes_equal (flags : Nat) (gmap : Nat → Option Nat) (d out : 
   have hCl : (M.take (xTot R + yTot R)).length = xTot R + yTot R := by simp; omega
   have hgd2 : gd = encRuns R ++ (M.take (xTot R + yTot R) ++ M.drop (xTot R + yTot R)) := by
     rw [List.take_append_drop]; exact hM.symm
-  have hgd' : ovl flags (gd.take k) = encRuns (ovlRuns flags R) ++ (M.take (xTot R + yTot R) ++ []) := by
-    rw [htk, List.append_nil]; exact ovl_runs flags R _ hRne
+  have hgd' : ovl flags (gd.take k) ++ pad = encRuns (ovlRuns flags R) ++ (M.take (xTot R + yTot R) ++ pad) := by
+    rw [htk, ovl_runs flags R _ hRne, List.append_assoc]
   have hbgd : ∀ b ∈ encRuns R, b < 256 := by
     intro b hbm
     apply hb
@@ -125,15 +125,17 @@ theorem simple_decodes_equal (flags : Nat) (gmap : Nat → Option Nat) (d out : 
     exact List.mem_append_left _ hbm
   have h256 := counts_256_of_bytes R hok hbgd
   -- the subset's view
-  have hv' : ∃ instr', Glyf.readSimple out = some (viewOf hdr instr' (ovl flags (gd.take k)) nc) ∧
+  have hv' : ∃ instr', Glyf.readSimple (out ++ pad) = some (viewOf hdr instr' (ovl flags (gd.take k) ++ pad) nc) ∧
       instr' = (if hasFlag flags F_NO_HINTING then [] else instr) := by
     by_cases hnh : hasFlag flags F_NO_HINTING = true
     · refine ⟨[], ?_, by simp [hnh]⟩
       rw [hout]; simp only [hnh, if_true]
-      exact readSimple_parts hdr [] _ nc 0 0 hhl hh0 hs (by simp)
+      have := readSimple_parts hdr [] (ovl flags (gd.take k) ++ pad) nc 0 0 hhl hh0 hs (by simp)
+      simpa [List.append_assoc] using this
     · refine ⟨instr, ?_, by simp [hnh]⟩
       rw [hout]; simp only [hnh]
-      exact readSimple_parts hdr instr _ nc x y hhl hh0 hs hinsl
+      have := readSimple_parts hdr instr (ovl flags (gd.take k) ++ pad) nc x y hhl hh0 hs hinsl
+      simpa [List.append_assoc] using this
   obtain ⟨instr', hv', hinstr'⟩ := hv'
   have hlast : ∀ (i g : Bytes), (viewOf hdr i g nc).endPts.getLast? = some (u16At d (10 + 2 * (nc - 1))) := by
     intro i g
@@ -149,7 +151,7 @@ theorem simple_decodes_equal (flags : Nat) (gmap : Nat → Option Nat) (d out : 
       rw [hout, List.getD_eq_getElem?_getD, List.getElem?_append_left (by omega), ← List.getD_eq_getElem?_getD]
     rw [e1, e2]
   · have e1 := points_of_runs _ _ R _ _ (hlast instr gd) hgd2 hok hcnt' h256 hCl
-    have e2 := points_of_runs _ _ (ovlRuns flags R) _ _ (hlast instr' (ovl flags (gd.take k))) hgd' (ovlRuns_ok flags R hok)
+    have e2 := points_of_runs _ _ (ovlRuns flags R) _ _ (hlast instr' (ovl flags (gd.take k) ++ pad)) hgd' (ovlRuns_ok flags R hok)
           (by rw [ovlRuns_counts]; exact hcnt') (ovlRuns_256 flags R h256)
           (by rw [ovlRuns_xTot, ovlRuns_yTot]; exact hCl)
     rw [e1, e2, ptsOfRuns_ovl]
@@ -162,7 +164,7 @@ theorem simple_decodes_equal (flags : Nat) (gmap : Nat → Option Nat) (d out : 
     rw [hnp] at hfl'
     simp only [Nat.zero_add] at hfl'
     have e1 := fast_of_runs _ _ R _ _ (hlast instr gd) hgd2 hok hcnt' hCl hfl'
-    have e2 := fast_of_runs _ _ (ovlRuns flags R) _ _ (hlast instr' (ovl flags (gd.take k))) hgd' (ovlRuns_ok flags R hok)
+    have e2 := fast_of_runs _ _ (ovlRuns flags R) _ _ (hlast instr' (ovl flags (gd.take k) ++ pad)) hgd' (ovlRuns_ok flags R hok)
           (by rw [ovlRuns_counts]; exact hcnt')
           (by rw [ovlRuns_xTot, ovlRuns_yTot]; exact hCl) (by rw [ovlRuns_encLen]; exact hfl')
     rw [e1, e2, fastOfRuns_ovl]
